@@ -148,9 +148,11 @@ Section PosetModel.
         else prune rel s t cur
     end.
 
+  (* list(superelement_idxs): CPython lists a set of small ints in ascending order; the order
+     only matters when the caches are unsound (results of the set algebra, finding D15) *)
   Definition cover_nocache (up : bool) (s : state) (i : nat) : state * list nat :=
     let '(s1, sup) := closed up s i in
-    prune (closed up) s1 sup sup.
+    prune (closed up) s1 (norm sup) sup.
 
   Definition cover (up : bool) (s : state) (i : nat) : state * list nat :=
     if use_cache s then
